@@ -42,9 +42,12 @@ def _round(q, bits=10):
     return Fraction(round(q * 2 ** bits), 2 ** bits)
 
 
-def _component(rng: Rng, N, m, rough):
+def _component(rng: Rng, N, m, rough, amp=Fraction(1), wide=False):
     lo = rng.choice([0, 0, -1, 10, Fraction(-7, 2)])
     scale = rng.choice([1, 1, 2, 5, Fraction(1, 2)])
+    if wide:  # scale sweep: domains of length 2^-10 … 2^10, offsets up to 1024 (all exact dyadic)
+        lo = rng.choice([0, 1024, -512, Fraction(1, 1024)])
+        scale = rng.choice([Fraction(1, 1024), Fraction(1, 32), 64, 1024])
     t = rng.grid(m, lo=lo, scale=scale)
     span = t[-1] - t[0]
     u = [(x - t[0]) / span for x in t]  # in [0, 1]
@@ -65,7 +68,7 @@ def _component(rng: Rng, N, m, rough):
                 pj = [1, 2 * x - 1, 6 * x * x - 6 * x + 1, (2 * x - 1) ** 3, x * (1 - x) * (2 * x - 1) * 4, (2 * x - 1) ** 4][j]
                 v += amps[i][j] * pj
             v += noise * rng.dyadic(-1, 1, 4)
-            row.append(_round(v))
+            row.append(_round(v) * amp)
         X.append(row)
     return dict(t=[rs(x) for x in t], X=[[rs(x) for x in r] for r in X])
 
@@ -94,7 +97,11 @@ def _case(rng: Rng, big=False, ufpca_only=False):
     else:
         N = rng.randint(5, max(6, M))  # fewer observations than coefficients: rank-deficient score covariance
     rough = rng.random() < 0.6
-    comps = [_component(rng, N, m, rough) for m in ms]
+    # scale sweep (exact powers of two): common amplitude 2^±20, per-component factors 2^±4, wide domains
+    sweep = rng.random() < 0.25
+    amp = Fraction(2) ** rng.choice([-20, -8, 8, 20]) if sweep else Fraction(1)
+    comps = [_component(rng, N, m, rough, amp * (Fraction(2) ** rng.choice([-4, 0, 0, 4]) if sweep else 1), wide=sweep and rng.random() < 0.6)
+             for m in ms]
     r = rng.random()
     if r < 0.7:
         nc = rng.randint(1, M)
@@ -102,7 +109,7 @@ def _case(rng: Rng, big=False, ufpca_only=False):
         nc = M
     else:
         nc = float(rng.choice([Fraction(1, 2), Fraction(3, 4), Fraction(9, 10), Fraction(99, 100)]))
-    return dict(kind="fit", comps=comps, exps=exps, n_components=nc, normalize=rng.random() < 0.3, rough=rough)
+    return dict(kind="fit", comps=comps, exps=exps, n_components=nc, normalize=rng.random() < 0.3, rough=rough, sweep=sweep)
 
 
 def _bd_case(rng: Rng):
@@ -889,7 +896,9 @@ def oracle(case, impl):
                 continue
             S0, S1 = np.asarray(f0["pace"], dtype=float), np.asarray(f["pace"], dtype=float)
             for m in range(len(nu0)):
-                if nu0[m] <= 1e-8 * sc:
+                # eigenvectors of relatively tiny eigenvalues are ill-conditioned functions of the (float) solver
+                # input: the two solver runs may legitimately differ there — not judged below 1e-6·ν_max
+                if nu0[m] <= 1e-6 * sc:
                     continue
                 sgn = 1.0 if np.dot(S0[:, m], S1[:, m]) >= 0 else -1.0
                 ssc = max(np.abs(S0[:, m]).max(), 1e-300)
@@ -927,7 +936,7 @@ def classify(case, impl):
         return tags + ["blocks:" + str(len(case["shapes"])), "square" if all(a == b for a, b in case["shapes"]) else "rectangular"]
     if case["kind"] == "irregular":
         return tags + (["error"] if "error" in impl else [])
-    tags += [f"P:{len(case['comps'])}", f"normalize:{case['normalize']}", "rough_mean" if case["rough"] else "smooth_mean",
+    tags += [f"P:{len(case['comps'])}", f"normalize:{case['normalize']}", "scale_sweep" if case.get("sweep") else "unit_scale", "rough_mean" if case["rough"] else "smooth_mean",
              "n_components:" + ("fraction" if isinstance(case["n_components"], float) else "int")]
     tags += sorted({"exp:" + e["method"] for e in case["exps"]})
     if len({len(c["t"]) for c in case["comps"]}) > 1:
